@@ -230,7 +230,11 @@ pub fn build(inst: &Inst) -> (Vec<Course>, Vec<Participant>) {
         .iter()
         .enumerate()
         .map(|(i, c)| {
-            make_course(i, i, format!("c{}", i), c.min, c.max, c.instr.clone(), c.fbits, c.obits, c.fixed, Vec::new())
+            // hidden extra names (people the reader left out, shown in the listing only): they must not influence the solver at all -- every
+            // third course or so carries one to three of them
+            let nh = if (i + c.min + 2 * c.max + c.instr.len()) % 3 == 0 { 1 + (c.max + i) % 3 } else { 0 };
+            let hidden: Vec<String> = (0..nh).map(|k| format!("hidden {} of c{}", k, i)).collect();
+            make_course(i, i, format!("c{}", i), c.min, c.max, c.instr.clone(), c.fbits, c.obits, c.fixed, hidden)
         })
         .collect();
     let parts = inst
